@@ -13,12 +13,13 @@ EXPLANATION = ("PROVED (SMT, unbounded - every number of frames, pixels, table r
                "background), inner loop over the items of dict(zip(seg ids, node ids)) of the frame (applied items written, rest background, other "
                "frames kept); both initial and preserved by the real loop bodies. Preconditions taken from the builder's call site: times are frame "
                "indices, a (time, seg id) pair names at most one node, ids non-negative. "
-               "BOUNDED STAND-IN (cross-check and the part outside the contract - the builder's decision whether to relabel at all): the real function "
-               "on every 2x3 label array over a small alphabet x every <= 3 detections x id assignments from {0,1,2,3,7}.")
+               "BOUNDED STAND-INS: (cross-check) the real function on every 2x3 label array over a small alphabet x every <= 3 detections x id assignments "
+               "from {0,1,2,3,7}; (builder path, outside the contract) tracks_from_df with a seg_id column on small tables incl. identity mappings with "
+               "unlisted labels - this one found the defect repaired by ac431c7 (no relabelling when seg ids equal node ids left unlisted labels in place).")
 ASSUMPTIONS = ["mathematical integers: the uint64 conversion of the output is the identity on non-negative ids",
                "a dask input is computed to the same values (seg_array.compute())"]
-NOT_UNDER_CONTRACT = ["TracksBuilder.handle_segmentation (decides whether relabelling is needed: np.array_equal(seg_ids, node_ids); bounded stand-in c13 covers "
-                      "relabel_segmentation only, the builder path is exercised by C12's bounded import scenarios)"]
+NOT_UNDER_CONTRACT = ["TracksBuilder.handle_segmentation (loads the array, validates it, calls relabel_segmentation with the columns of the node table): "
+                      "bounded stand-in c13-builder-path through tracks_from_df"]
 
 
 def units(tier):
@@ -27,4 +28,6 @@ def units(tier):
 
 def bounded(tier, seed):
     from pyvc.native_bridge import bounded_pure
-    return [bounded_pure(tier, "c13", "c13", "all arrays 2x3 over labels 0..2 (quick) / 0..3 (thorough) x all <=3 detections x all id assignments from {0,1,2,3,7}", seed, exhaustive=True)]
+    return [bounded_pure(tier, "c13", "c13", "all arrays 2x3 over labels 0..2 (quick) / 0..3 (thorough) x all <=3 detections x all id assignments from {0,1,2,3,7}", seed, exhaustive=True),
+            bounded_pure(tier, "c13b", "c13-builder-path", "tracks_from_df with a seg_id column: <=3 detections in 2 frames, labels 1..3, ids from {0,1,2,3,7}, with/without an unlisted label; "
+                         "quick: every case where all labels are also node ids (where a shortcut could skip relabelling) + 250 sampled others; thorough: all", seed, exhaustive=(tier == "thorough"))]
